@@ -529,9 +529,10 @@ func run(c Case) *vkit.Result {
 		return res
 	}
 	verdict, reject, grey := model(c)
-	// if the wall clock moved by >= 1 s during the case (loaded machine), the
-	// windows are no longer guaranteed: treat time-dependent verdicts as grey
-	if t1.Sub(t0) > time.Second {
+	// Claims are relative to the truncated second of t0 (up to 1 s behind the clock) and the library rounds
+	// now+offset to the nearest second (up to 0.5 s ahead), so the 2 s guard holds only while the case takes
+	// less than 0.5 s: beyond 400 ms (loaded machine) the time-dependent verdicts are grey.
+	if t1.Sub(t0) > 400*time.Millisecond {
 		verdict = 0
 		grey = append(grey, "slow-clock")
 	}
